@@ -42,19 +42,20 @@ theorem isBlocklisted_iff_forbids (env : Env Net Pat IP) (pol : Policy Net Pat) 
 
 /-- **Accepted ⇒ permitted literal.**  If the covert is not rejected then: the string split into host and
 port, the port is a uint16, the host matched no blocklisted domain pattern, the one lookup (the answer
-under the cursor) gave an address with an IP and no zone, the policy does not forbid that IP, and the
-returned string is exactly `JoinHostPort(IP.String(), port)` **of that IP** — the literal text of the
-address that was checked, not a string supplied from elsewhere. -/
+under the cursor) gave an address with an IP and no zone, that IP is not the unspecified address (which `net.Dial` would replace
+by the local system), the policy does not forbid it, and the returned string is exactly
+`JoinHostPort(IP.String(), port)` **of that IP** — the literal text of the address that was checked, not
+a string supplied from elsewhere. -/
 theorem accepted_is_permitted_literal (env : Env Net Pat IP) (pol : Policy Net Pat) (a : Answers)
     (rs : Resolver IP) (n : Nat) (h : (parseOrResolve env pol a rs n).out ≠ "") :
     ∃ host port ip,
       a.split = some (host, port) ∧ a.portOk = true ∧
       (∀ p ∈ pol.domains, env.matchString p host = false) ∧
-      rs n = .addr (some ip) "" ∧
+      rs n = .addr (some ip) "" ∧ env.unspecified ip = false ∧
       ¬ Forbids env pol ip ∧
       (parseOrResolve env pol a rs n).out = joinHostPort (env.ipText ip) port := by
-  obtain ⟨host, port, ip, _, hs, hd, hk, hr, hb, hout⟩ := (accepted_iff env pol a rs n).mp h
-  refine ⟨host, port, ip, hs, hk, ?_, hr, ?_, by rw [hout]⟩
+  obtain ⟨host, port, ip, _, hs, hd, hk, hr, hu, hb, hout⟩ := (accepted_iff env pol a rs n).mp h
+  refine ⟨host, port, ip, hs, hk, ?_, hr, hu, ?_, by rw [hout]⟩
   · intro p hp
     unfold isBlocklistedCovertDomain at hd
     cases hm : env.matchString p host with
@@ -70,7 +71,7 @@ theorem accepted_outside_blocklist (env : Env Net Pat IP) (pol : Policy Net Pat)
     (rs : Resolver IP) (n : Nat)
     (hna : pol.enableAllow = false) (h : (parseOrResolve env pol a rs n).out ≠ "") :
     ∃ ip, rs n = .addr (some ip) "" ∧ ∀ net ∈ pol.block, env.contains net ip = false := by
-  obtain ⟨_, _, ip, _, _, _, hr, hf, _⟩ := accepted_is_permitted_literal env pol a rs n h
+  obtain ⟨_, _, ip, _, _, _, hr, _, hf, _⟩ := accepted_is_permitted_literal env pol a rs n h
   refine ⟨ip, hr, ?_⟩
   intro net hn
   cases hc : env.contains net ip with
@@ -85,7 +86,7 @@ theorem accepted_inside_allowlist (env : Env Net Pat IP) (pol : Policy Net Pat) 
     (rs : Resolver IP) (n : Nat)
     (hal : pol.enableAllow = true) (h : (parseOrResolve env pol a rs n).out ≠ "") :
     ∃ ip, rs n = .addr (some ip) "" ∧ inAny env pol.allow ip := by
-  obtain ⟨_, _, ip, _, _, _, hr, hf, _⟩ := accepted_is_permitted_literal env pol a rs n h
+  obtain ⟨_, _, ip, _, _, _, hr, _, hf, _⟩ := accepted_is_permitted_literal env pol a rs n h
   refine ⟨ip, hr, ?_⟩
   unfold Forbids at hf
   simp only [hal, if_true] at hf
@@ -103,13 +104,14 @@ def accepted_is_permitted_literal_full : Prop :=
 accepted (documented behaviour; not repaired, see the header). -/
 theorem accepted_is_permitted_literal_full_refuted : ¬ accepted_is_permitted_literal_full := by
   intro hfull
-  let env : Env Nat Nat Unit := { contains := fun _ _ => true, matchString := fun _ _ => false, ipText := fun _ => "10.1.2.3" }
+  let env : Env Nat Nat Unit := { contains := fun _ _ => true, matchString := fun _ _ => false, ipText := fun _ => "10.1.2.3",
+                                   unspecified := fun _ => false }
   let pol : Policy Nat Nat := { block := [0], allow := [1], enableAllow := true, domains := [] }
   let a : Answers := { providedIsIP := false, split := some ("10.1.2.3", "80"), portOk := true, hostIsIP := true }
   let rs : Resolver Unit := fun _ => .addr (some ()) ""
   have hacc : (parseOrResolve env pol a rs 0).out ≠ "" := by
     apply (accepted_iff env pol a rs 0).mpr
-    exact ⟨"10.1.2.3", "80", (), rfl, rfl, rfl, rfl, rfl, rfl, rfl⟩
+    exact ⟨"10.1.2.3", "80", (), rfl, rfl, rfl, rfl, rfl, rfl, rfl, rfl⟩
   obtain ⟨ip, zone, _, hb, _⟩ := hfull env pol a rs 0 (by simp [pol]) hacc
   have := hb 0 (by simp [pol])
   simp [env] at this
@@ -122,7 +124,7 @@ theorem accepted_outside_blocklist_and_inside_allowlist (env : Env Net Pat IP) (
     (h : (parseOrResolve env pol a rs n).out ≠ "") :
     ∃ ip, rs n = .addr (some ip) "" ∧
       (∀ net ∈ pol.block, env.contains net ip = false) ∧ (pol.allow ≠ [] → inAny env pol.allow ip) := by
-  obtain ⟨_, _, ip, _, _, _, hr, hf, _⟩ := accepted_is_permitted_literal env pol a rs n h
+  obtain ⟨_, _, ip, _, _, _, hr, _, hf, _⟩ := accepted_is_permitted_literal env pol a rs n h
   refine ⟨ip, hr, ?_, ?_⟩
   · intro net hn
     cases hc : env.contains net ip with
@@ -154,7 +156,7 @@ theorem resolved_at_most_once (env : Env Net Pat IP) (pol : Policy Net Pat) (a :
 theorem accepted_resolved_exactly_once (env : Env Net Pat IP) (pol : Policy Net Pat) (a : Answers)
     (rs : Resolver IP) (n : Nat) (h : (parseOrResolve env pol a rs n).out ≠ "") :
     (parseOrResolve env pol a rs n).cursor = n + 1 := by
-  obtain ⟨_, _, _, _, _, _, _, _, _, hout⟩ := (accepted_iff env pol a rs n).mp h
+  obtain ⟨_, _, _, _, _, _, _, _, _, _, hout⟩ := (accepted_iff env pol a rs n).mp h
   rw [hout]
 
 /-- **Answers that change between lookups do not matter**: the result (accepted string, statistics
@@ -166,24 +168,45 @@ theorem later_answers_irrelevant (env : Env Net Pat IP) (pol : Policy Net Pat) (
   result_congr env pol a rs rs' n h
 
 /-- **The accepted string parses back to the checked address**: handed to `net.Dial` it is recognised as
-a literal — the IP that the policy was evaluated on, the port that was checked — and no resolver answer
-is consumed, whatever the resolver would answer now (`rs'` and `m` are arbitrary).  The two hypotheses
-are the standard-library contracts `SplitHostPort ∘ JoinHostPort` and `ParseIP ∘ IP.String` for this
-address and port; the harness checks both on every accepted case. -/
+a literal — the IP that the policy was evaluated on, the port that was checked —, it is not replaced by
+the local system, and no resolver answer is consumed, whatever the resolver would answer now (`rs'` and
+`m` are arbitrary).  The hypotheses are the standard-library contracts `SplitHostPort ∘ JoinHostPort`
+and `ParseIP ∘ IP.String` for this address and port (the harness checks both on every accepted case)
+and that the dialer's notion of "unspecified" is `IP.IsUnspecified`. -/
 theorem accepted_parses_back (env : Env Net Pat IP) (pol : Policy Net Pat) (a : Answers) (rs : Resolver IP)
     (n : Nat) (L : DialLib IP) (h : (parseOrResolve env pol a rs n).out ≠ "") :
     ∃ host port ip, a.split = some (host, port) ∧ rs n = .addr (some ip) "" ∧ ¬ Forbids env pol ip ∧
       (L.splitHostPort (joinHostPort (env.ipText ip) port) = some (env.ipText ip, port) →
-       L.parseIP (env.ipText ip) = some ip →
+       L.parseIP (env.ipText ip) = some ip → L.unspecified ip = env.unspecified ip →
        ∀ (rs' : Resolver IP) (m : Nat),
          netDial L (parseOrResolve env pol a rs n).out rs' m = (.literal ip port, m)) := by
-  obtain ⟨host, port, ip, hs, _, _, hr, hf, hout⟩ := accepted_is_permitted_literal env pol a rs n h
+  obtain ⟨host, port, ip, hs, _, _, hr, hu, hf, hout⟩ := accepted_is_permitted_literal env pol a rs n h
   refine ⟨host, port, ip, hs, hr, hf, ?_⟩
-  intro hsplit hparse rs' m
+  intro hsplit hparse hun rs' m
   rw [hout]
   unfold netDial
   rw [hsplit]
-  simp only [hparse]
+  simp only [hparse, hun, hu, Bool.false_eq_true, if_false]
+
+/-- why the unspecified address must be rejected: as a literal it is not connected to as is — `net.Dial`
+assumes the local system, whatever the policy said about `0.0.0.0` / `::` -/
+theorem unspecified_literal_dials_local_system (L : DialLib IP) (s host port : String) (ip : IP)
+    (rs : Resolver IP) (m : Nat) (hs : L.splitHostPort s = some (host, port)) (hp : L.parseIP host = some ip)
+    (hu : L.unspecified ip = true) : netDial L s rs m = (.localSystem port, m) := by
+  unfold netDial; rw [hs]; simp only [hp, hu, if_true]
+
+/-- … and it is: whatever the policy, an unspecified address is never accepted -/
+theorem unspecified_never_accepted (env : Env Net Pat IP) (pol : Policy Net Pat) (a : Answers) (rs : Resolver IP)
+    (n : Nat) (ip : IP) (zone : String) (hr : rs n = .addr (some ip) zone) (hu : env.unspecified ip = true) :
+    (parseOrResolve env pol a rs n).out = "" := by
+  cases hout : (parseOrResolve env pol a rs n).out == "" with
+  | true => simpa using hout
+  | false =>
+    have hne : (parseOrResolve env pol a rs n).out ≠ "" := by simpa using hout
+    obtain ⟨_, _, ip', _, _, _, hr', hu', _, _⟩ := accepted_is_permitted_literal env pol a rs n hne
+    rw [hr] at hr'
+    cases hr'
+    rw [hu] at hu'; cases hu'
 
 /-- a string that `net.Dial` does not recognise as a literal is resolved **at dial time**: the station
 would connect to whatever the resolver answers then (this is what the overwrite of `Covert` prevents) -/
@@ -202,6 +225,7 @@ theorem permitted_literal_unchanged (env : Env Net Pat IP) (pol : Policy Net Pat
     (hnotip : a.providedIsIP = false)                       -- "host:port" is not itself an IP
     (hs : a.split = some (host, port)) (hport : a.portOk = true)
     (hlit : a.hostIsIP = true) (hres : rs n = .addr (some ip) "") (htext : env.ipText ip = host)
+    (hspec : env.unspecified ip = false)
     (hdom : ∀ p ∈ pol.domains, env.matchString p host = false)
     (hperm : ¬ Forbids env pol ip) :
     parseOrResolve env pol a rs n = ⟨provided, false, n + 1⟩ := by
@@ -216,7 +240,7 @@ theorem permitted_literal_unchanged (env : Env Net Pat IP) (pol : Policy Net Pat
     cases hx : isBlocklistedCovertAddr env pol ip with
     | false => rfl
     | true => exact absurd ((isBlocklisted_iff_forbids env pol ip).mp hx) hperm
-  simp [parseOrResolve, hnotip, hs, hd, hport, hlit, hres, hb, hprov, addrText, htext]
+  simp [parseOrResolve, hnotip, hs, hd, hport, hlit, hres, hb, hprov, addrText, htext, hspec]
 
 /-! ### which object becomes dialable: any number of workers, any interleaving -/
 
@@ -280,7 +304,7 @@ address the policy does not forbid. -/
 theorem checked_is_dialed (raw : Nat → String) (c : Nat) (sched : List Nat) (s : String)
     (h : (runSched env pol inp rs (World.init raw c) sched).dialString = some s) :
     ∃ i n host port ip, (inp.ans i).split = some (host, port) ∧ rs n = .addr (some ip) "" ∧
-      ¬ Forbids env pol ip ∧ s = (parseOrResolve env pol (inp.ans i) rs n).out ∧
+      env.unspecified ip = false ∧ ¬ Forbids env pol ip ∧ s = (parseOrResolve env pol (inp.ans i) rs n).out ∧
       s = joinHostPort (env.ipText ip) port := by
   have hinv := inv_run env pol inp rs sched _ (inv_init env pol inp rs raw c)
   unfold World.dialString at h
@@ -293,8 +317,8 @@ theorem checked_is_dialed (raw : Nat → String) (c : Nat) (sched : List Nat) (s
     | true =>
       simp only [hv, if_true, Option.some.injEq] at h
       obtain ⟨_, n, hne, heq⟩ := hinv.valid e hst hv
-      obtain ⟨host, port, ip, hs, _, _, hr, hf, hout⟩ := accepted_is_permitted_literal env pol (inp.ans e.ptr) rs n hne
-      exact ⟨e.ptr, n, host, port, ip, hs, hr, hf, by rw [← h, heq], by rw [← h, heq, hout]⟩
+      obtain ⟨host, port, ip, hs, _, _, hr, hu, hf, hout⟩ := accepted_is_permitted_literal env pol (inp.ans e.ptr) rs n hne
+      exact ⟨e.ptr, n, host, port, ip, hs, hr, hu, hf, by rw [← h, heq], by rw [← h, heq, hout]⟩
 
 /-- … and the dial itself: the stored string is recognised as the literal of that address and port; the
 connection goes there, no resolver answer is consumed at dial time, and nothing the resolver would
@@ -304,7 +328,7 @@ theorem dialed_is_checked_literal (raw : Nat → String) (c : Nat) (sched : List
     (h : (runSched env pol inp rs (World.init raw c) sched).proxyDial L rs' = some (d, m)) :
     ∃ i n host port ip, (inp.ans i).split = some (host, port) ∧ rs n = .addr (some ip) "" ∧ ¬ Forbids env pol ip ∧
       (L.splitHostPort (joinHostPort (env.ipText ip) port) = some (env.ipText ip, port) →
-       L.parseIP (env.ipText ip) = some ip →
+       L.parseIP (env.ipText ip) = some ip → L.unspecified ip = env.unspecified ip →
        d = .literal ip port ∧ m = (runSched env pol inp rs (World.init raw c) sched).cursor) := by
   unfold World.proxyDial at h
   cases hs : (runSched env pol inp rs (World.init raw c) sched).dialString with
@@ -312,13 +336,13 @@ theorem dialed_is_checked_literal (raw : Nat → String) (c : Nat) (sched : List
   | some s =>
     rw [hs] at h
     simp only [Option.map_some, Option.some.injEq] at h
-    obtain ⟨i, n, host, port, ip, hsp, hr, hf, _, hlit⟩ := checked_is_dialed env pol inp rs raw c sched s hs
+    obtain ⟨i, n, host, port, ip, hsp, hr, hu, hf, _, hlit⟩ := checked_is_dialed env pol inp rs raw c sched s hs
     refine ⟨i, n, host, port, ip, hsp, hr, hf, ?_⟩
-    intro hsplit hparse
+    intro hsplit hparse hun
     subst hlit
     unfold netDial at h
     rw [hsplit] at h
-    simp only [hparse, Prod.mk.injEq] at h
+    simp only [hparse, hun, hu, Bool.false_eq_true, if_false, Prod.mk.injEq] at h
     exact ⟨h.1.symm, h.2.symm⟩
 
 /-- a rejected covert never yields a dialable registration: if no worker's covert string is accepted
@@ -329,9 +353,9 @@ theorem rejected_never_admitted (raw : Nat → String) (c : Nat) (sched : List N
   cases h : (runSched env pol inp rs (World.init raw c) sched).dialString with
   | none => rfl
   | some s =>
-    obtain ⟨i, n, _, _, _, _, _, _, hs, _⟩ := checked_is_dialed env pol inp rs raw c sched s h
+    obtain ⟨i, n, _, _, _, _, _, _, _, hs, _⟩ := checked_is_dialed env pol inp rs raw c sched s h
     have hne : s ≠ "" := by
-      obtain ⟨_, _, _, _, _, _, _, _, _, hlit⟩ := checked_is_dialed env pol inp rs raw c sched s h
+      obtain ⟨_, _, _, _, _, _, _, _, _, _, hlit⟩ := checked_is_dialed env pol inp rs raw c sched s h
       rw [hlit]; exact joinHostPort_ne_empty _ _
     rw [hs, hrej i n] at hne
     exact absurd rfl hne
@@ -363,7 +387,8 @@ end workers
 /-! ### non-vacuity -/
 
 def env0 : Env Nat Nat Unit :=
-  { contains := fun n _ => n == 1, matchString := fun p _ => p == 9, ipText := fun _ => "198.51.100.7" }
+  { contains := fun n _ => n == 1, matchString := fun p _ => p == 9, ipText := fun _ => "198.51.100.7",
+    unspecified := fun _ => false }
 def pol0 : Policy Nat Nat := { block := [0, 2], allow := [], enableAllow := false, domains := [7] }
 def ans0 : Answers := { providedIsIP := false, split := some ("198.51.100.7", "443"), portOk := true, hostIsIP := true }
 def rs0 : Resolver Unit := fun _ => .addr (some ()) ""
@@ -374,7 +399,7 @@ def rsFlip : Resolver Unit := fun n => if n = 0 then .addr (some ()) "" else .er
 example : parseOrResolve env0 pol0 ans0 rs0 5 = ⟨joinHostPort "198.51.100.7" "443", false, 6⟩ := by
   simp [parseOrResolve, env0, pol0, ans0, rs0, isBlocklistedCovertDomain, isBlocklistedCovertAddr, addrText]
 example : (parseOrResolve env0 pol0 ans0 rs0 0).out ≠ "" :=
-  (accepted_iff env0 pol0 ans0 rs0 0).mpr ⟨"198.51.100.7", "443", (), rfl, rfl, rfl, rfl, rfl, rfl,
+  (accepted_iff env0 pol0 ans0 rs0 0).mpr ⟨"198.51.100.7", "443", (), rfl, rfl, rfl, rfl, rfl, rfl, rfl,
     by simp [parseOrResolve, env0, pol0, ans0, rs0, isBlocklistedCovertDomain, isBlocklistedCovertAddr, addrText]⟩
 -- … also under a resolver whose later answers differ …
 example : parseOrResolve env0 pol0 ans0 rsFlip 0 = parseOrResolve env0 pol0 ans0 rs0 0 :=
@@ -413,8 +438,11 @@ example : (runSched env0 pol0 inp0 rs0 (World.init raw0 0) [1, 1, 1, 1, 0, 0, 0,
 -- the dial of that string consumes no resolver answer
 def L0 : DialLib Unit :=
   { splitHostPort := fun s => if s = joinHostPort "198.51.100.7" "443" then some ("198.51.100.7", "443") else none,
-    parseIP := fun h => if h = "198.51.100.7" then some () else none }
+    parseIP := fun h => if h = "198.51.100.7" then some () else none, unspecified := fun _ => false }
 example : netDial L0 (joinHostPort "198.51.100.7" "443") rsFlip 3 = (.literal () "443", 3) := by
   simp [netDial, L0]
+-- the unspecified address is rejected although no list names it
+example : (parseOrResolve { env0 with unspecified := fun _ => true } pol0 ans0 rs0 0).out = "" :=
+  unspecified_never_accepted _ pol0 ans0 rs0 0 () "" rfl rfl
 
 end CJ.Props.C06
